@@ -21,6 +21,13 @@ def extra_docs():
     out.append(b + [N("GET /loc", [N("301", [N('Headers\n{"Location": "x"}')]), N("200 any")])])     # a response without a body
     out.append(b + [N("POST /rq", [N("Request", [N('Headers\n{"h": "v"}')]), N("200 any")])])        # a request without a body
     out.append(b + [N("GET /", [N("200 any")]), N("GET /./x", [N("200 any")]), N("GET /a_b/c", [N("200 any")]), N("GET /{p}", [N("200 any")])])
+    # a declared tag whose name is also the implicit path tag of an untagged interaction
+    for first in (True, False):
+        tagged = [N("GET /dogs", [N("Tags @cats"), N("200 any")]), N("URL /birds", [N("Tags @cats"), N("POST", [N("200 any")])]),
+                  N("URL /rpc", [N("Protocol json-rpc-2.0"), N("Method purr", [N("Tags @cats"), N('Params\n{"p": 1}')])])]
+        untagged = [N("GET /cats", [N("200 any")]), N("DELETE /cats/{id}", [N("204 any")])]
+        out.append([N("JSIGHT 0.3"), N("TAG @cats // All about cats")] + (tagged + untagged if first else untagged + tagged))
+        out.append([N("JSIGHT 0.3")] + (tagged[:1] + untagged[:1] if first else untagged[:1] + tagged[:1]) + [N("TAG @cats")])
     # methods with their own path parameters that exist only after PASTE expansion
     out.append(b + [N("MACRO @m", [N("GET /orders/{orderId}/items/{itemId}", [N("200 any")])], explicit=True), N("PASTE @m")])
     out.append(b + [N("MACRO @m", [N("GET /health/{probe}", [N("200 any")])], explicit=True), N("URL /api", [N("PASTE @m"), N("POST", [N("200 any")])])])
